@@ -249,10 +249,15 @@ def e2e_worker(task):
     cfg['ike']['prf_a'] = cfg['ike']['prf_b'] = [['sha1', 'sha256', 'sha512'][seed % 3]]
     cfg['ike']['integ_a'] = cfg['ike']['integ_b'] = [['sha512', 'sha1', 'sha256'][seed % 3]]
     cfg['ike']['encr_a'] = cfg['ike']['encr_b'] = [['aes128', 'aes256'][seed % 2]]
+    # a prefers another group than the one b accepts: a's IKE_SA_INIT and a's IKE_SA rekey both go through an
+    # INVALID_KE_PAYLOAD retry, and the keys of the retried exchange are the ones judged
+    alt = '19' if group in MODP else '14'
+    cfg['ike']['dh_a'] = [alt, str(group)]
     case = {'cfg': cfg, 'entry': 0, 'host_s': 1, 'host_d': 2, 'first': 'ab'[seed % 2], 'cookie': False,
             'ops': [['new_child', 'b', 1, False], ['rekey_child', 'a', 0, False], ['rekey_ike', 'b', 0, False],
                     ['new_child', 'a', 2, True], ['new_child', 'b', 3, False],
-                    ['rekey_child', 'b', 0, True], ['new_child', 'a', 4, False]]}
+                    ['rekey_child', 'b', 0, True], ['new_child', 'a', 4, False], ['rekey_ike', 'a', 0, False],
+                    ['new_child', 'b', 5, False]]}
     fails, info = c01.run_case(case)
     st_ = Stats()
     st_.case(['e2e', group, pfs, seed % 6], nontrivial=True, klass=[f'e2e:dh{group}', 'e2e:pfs' if pfs else 'e2e:nopfs'],
